@@ -17,6 +17,7 @@ from __future__ import annotations
 import collections
 import dataclasses
 import hashlib
+import json
 import operator
 
 from sexp import Sym
@@ -25,7 +26,7 @@ from props import _token_util as U
 PROP = "C15"
 READY = True
 DRIVER = "dm_token"
-LEAN_MODULES = ["DaskModel.Props.C15"]
+LEAN_MODULES = ["DaskModel.Props.C15", "DaskModel.Props.C15Unpack"]
 CASE_TIMEOUT_S = 120
 LEVEL_TEXT = ("Lean proof: for every delayed program (calls whose arguments nest Delayed values inside lists, tuples and "
               "dicts, shared sub-programs allowed) the graph assembled by merging the argument graphs and adding one task "
@@ -477,6 +478,66 @@ def case_nout(ctx, inp):
     ctx.branch("nout")
 
 
+def _ret_tuple(n, m, k):
+    return tuple(n * 10 + i + m for i in range(k))
+
+
+def _ret_list(n, m, k):
+    return [n * 10 + i + m for i in range(k)]
+
+
+def _ret_dict(n, m, k):
+    return {i: n * 10 + i + m for i in range(k)}
+
+
+def _ret_nested(n, m, k):
+    return tuple((i, [n, m]) for i in range(k))
+
+
+_RETS = {"tuple": _ret_tuple, "list": _ret_list, "dict": _ret_dict, "nested": _ret_nested}
+
+
+def case_nout2(ctx, inp):
+    """nout-unpacking over what the function returns (tuple, list, dict keyed 0..n-1, nested tuples), nout = 0..4, also
+    smaller than the returned length; through a plain call, a method call and a delayed callable; pure on/off"""
+    import dask
+    from dask import delayed
+    n, m, k, nout, kind = inp["n"], inp["m"], inp["k"], inp["nout"], inp["kind"]
+    f = _RETS[kind]
+    want_all = f(n, m, k)
+    how = inp.get("how", "call")
+    if how == "call":
+        res = delayed(f, nout=nout, pure=inp.get("pure"))(n, m, k)
+    elif how == "nested-arg":
+        res = delayed(f, nout=nout, pure=inp.get("pure"))(delayed(n), [delayed(m)][0], k)
+    else:
+        res = delayed(f, nout=nout)(n, m, dask_key_name=f"named-{n}-{m}-{k}-{nout}", k=k)
+    try:
+        parts = list(res)
+    except Exception as e:
+        ctx.fail(f"iterating a Delayed with nout={nout} raised {type(e).__name__}", observed=str(e)[:100])
+        return
+    if len(parts) != nout or len(res) != nout:
+        ctx.fail("a Delayed with nout=n does not iterate into n parts", observed=[len(parts), nout])
+        return
+    if nout > k:
+        ctx.branch("nout-larger-than-result")
+        return      # the eager program fails too (IndexError / KeyError)
+    vals = dask.compute(*parts, scheduler="sync") if parts else ()
+    want = [want_all[i] for i in range(nout)]
+    if [_plain(v) for v in vals] != [_plain(v) for v in want]:
+        ctx.fail("nout-unpacking does not yield the elements of the returned value", observed=repr(vals)[:200], expected=repr(want)[:200])
+    whole = res.compute(scheduler="sync")
+    if _plain(whole) != _plain(want_all):
+        ctx.fail("a Delayed with nout computes a different value than the eager call", observed=repr(whole)[:200], expected=repr(want_all)[:200])
+    if inp.get("pure") and how == "call":
+        again = delayed(f, nout=nout, pure=True)(n, m, k)
+        if again.key != res.key or [p.key for p in again] != [p.key for p in parts]:
+            ctx.fail("identical pure calls with nout get different keys (the call or its parts)", observed=[res.key, again.key])
+    ctx.branch(f"nout2-{kind}-{how}")
+    ctx.branch(f"nout2-nout{nout}")
+
+
 def case_keys(ctx, inp):
     """the key rules of delayed: pure / impure / named, for functions, methods and wrapped objects"""
     import dask
@@ -563,8 +624,390 @@ def case_collarg(ctx, inp):
     ctx.branch(f"collarg-{inp['idx'] % len(progs)}")
 
 
+# ----------------------------------------------------------------------------------------------
+# function level: unpack_collections of dask/delayed.py vs Model/DelayedUnpack.lean
+# ----------------------------------------------------------------------------------------------
+
+@dataclasses.dataclass(frozen=True)
+class UD1:
+    a: object
+
+
+@dataclasses.dataclass(frozen=True)
+class UD2:
+    a: object
+    b: object
+
+
+@dataclasses.dataclass
+class UD3:          # not frozen: unhashable
+    a: object
+    b: object
+    c: object
+
+
+UN1 = collections.namedtuple("UN1", "p")
+UN2 = collections.namedtuple("UN2", "p q")
+UN3 = collections.namedtuple("UN3", "p q r")
+UDS = {1: UD1, 2: UD2, 3: UD3}
+UNS = {1: UN1, 2: UN2, 3: UN3}
+
+
+def _capture(*args, **kwargs):
+    return (args, kwargs)
+
+
+def build_pv(spec, leaves, eager):
+    """PV spec -> python object; `leaves[k]` is the Delayed standing for key k (eager: its value 1000 + k)"""
+    t = spec[0]
+    if t == "lit":
+        return None if spec[1] == 0 else spec[1]
+    if t == "del":
+        return 1000 + spec[1] if eager else leaves[spec[1]]
+    if t in ("list", "tuple", "set", "ilist", "ituple", "iset"):
+        xs = [build_pv(x, leaves, eager) for x in spec[1]]
+        base = xs if t.endswith("list") else tuple(xs) if t.endswith("tuple") else set(xs)
+        return iter(base) if (t[0] == "i" and not eager) else base
+    if t == "dict":
+        return {build_pv(k, leaves, eager): build_pv(v, leaves, eager) for k, v in spec[1]}
+    if t == "slice":
+        return slice(*[build_pv(x, leaves, eager) for x in spec[1:4]])
+    if t == "dc":
+        return UDS[len(spec[2])](*[build_pv(x, leaves, eager) for x in spec[2]])
+    if t == "nt":
+        return UNS[len(spec[2])](*[build_pv(x, leaves, eager) for x in spec[2]])
+    raise ValueError(spec)
+
+
+def pv_of(obj, it_kind=None):
+    """python object -> PV spec, in the iteration order of the object itself (what dask sees)"""
+    from dask.delayed import Delayed
+    if isinstance(obj, Delayed):
+        return ["del", int(obj.key[1:])]
+    if obj is None:
+        return ["lit", 0]
+    if isinstance(obj, bool):
+        raise ValueError(obj)
+    if isinstance(obj, int):
+        return ["lit", obj]
+    if type(obj) in UNS.values():
+        return ["nt", len(obj), [pv_of(x) for x in obj]]
+    if type(obj) in (list, tuple, set):
+        return [type(obj).__name__, [pv_of(x) for x in obj]]
+    if type(obj) is dict:
+        return ["dict", [[pv_of(k), pv_of(v)] for k, v in obj.items()]]
+    if type(obj) is slice:
+        return ["slice", pv_of(obj.start), pv_of(obj.stop), pv_of(obj.step)]
+    if type(obj) in UDS.values():
+        return ["dc", len(dataclasses.fields(obj)), [pv_of(getattr(obj, f.name)) for f in dataclasses.fields(obj)]]
+    raise ValueError(f"no PV for {obj!r}")
+
+
+def enc_pv(spec):
+    t = spec[0]
+    if t in ("lit", "del"):
+        return [Sym(t), spec[1]]
+    if t in ("list", "tuple", "set", "ilist", "ituple", "iset"):
+        return [Sym(t)] + [enc_pv(x) for x in spec[1]]
+    if t == "dict":
+        return [Sym("dict")] + [[enc_pv(k), enc_pv(v)] for k, v in spec[1]]
+    if t == "slice":
+        return [Sym("slice")] + [enc_pv(x) for x in spec[1:4]]
+    return [Sym(t), spec[1]] + [enc_pv(x) for x in spec[2]]
+
+
+def dec_pv(m):
+    t = str(m[0])
+    if t in ("lit", "del"):
+        return [t, m[1]]
+    if t in ("list", "tuple", "set", "ilist", "ituple", "iset"):
+        return [t, [dec_pv(x) for x in m[1:]]]
+    if t == "dict":
+        return ["dict", [[dec_pv(k), dec_pv(v)] for k, v in m[1:]]]
+    if t == "slice":
+        return ["slice"] + [dec_pv(x) for x in m[1:4]]
+    return [t, m[1], [dec_pv(x) for x in m[2:]]]
+
+
+def dec_tt(m):
+    """model task s-expression -> canonical JSON"""
+    t = str(m[0])
+    if t == "obj":
+        return ["obj", dec_pv(m[1])]
+    if t == "ref":
+        return ["ref", m[1]]
+    if t == "list":
+        return ["list", [dec_tt(x) for x in m[1:]]]
+    if t == "conv":
+        return _set_canon(["conv", str(m[1]), dec_tt(m[2])])
+    if t == "dict":
+        return ["dict", [[dec_tt(k), dec_tt(v)] for k, v in m[1:]]]
+    if t == "slice":
+        return ["slice"] + [dec_tt(x) for x in m[1:4]]
+    return [t, m[1], [dec_tt(x) for x in m[2:]]]
+
+
+def _set_canon(c):
+    """the elements of a rebuilt set in a canonical order (a set iterator is converted into a NEW set, whose iteration
+    order need not be that of the set the harness looked at)"""
+    if c[0] == "conv" and c[1] == "set" and c[2][0] == "list":
+        return ["conv", "set", ["list", sorted(c[2][1], key=repr)]]
+    return c
+
+
+def canon_task(t):
+    """the task returned by the real unpack_collections -> the same canonical JSON"""
+    from dask._task_spec import Dict, GraphNode, List, Task, TaskRef
+    from dask.delayed import _reconstruct_namedtuple
+    from dask.utils import apply
+    if isinstance(t, TaskRef):
+        return ["ref", int(str(t.key)[1:])]
+    if isinstance(t, Dict):
+        args = list(t.args)
+        return ["dict", [[canon_task(args[i]), canon_task(args[i + 1])] for i in range(0, len(args), 2)]]
+    if isinstance(t, List):
+        return ["list", [canon_task(a) for a in t.args]]
+    if isinstance(t, Task):
+        if t.func in (tuple, set) and len(t.args) == 1 and not t.kwargs:
+            return _set_canon(["conv", t.func.__name__, canon_task(t.args[0])])
+        if t.func is apply and t.args and t.args[0] is slice:
+            inner = canon_task(t.args[1])
+            if inner[0] != "list" or len(inner[1]) != 3:
+                return ["unknown-slice", repr(t)]
+            return ["slice"] + inner[1]
+        if t.func is apply and t.args and t.args[0] in UDS.values():
+            d = t.args[2]
+            if not (isinstance(d, Task) and d.func is dict and len(d.args) == 1 and t.args[1] == ()):
+                return ["unknown-dataclass", repr(t)]
+            fields = []
+            pairs = d.args[0]
+            for pr in (pairs.args if isinstance(pairs, List) else pairs):
+                name, val = (pr.args if isinstance(pr, List) else pr)
+                fields.append((name, canon_task(val)))
+            cls = t.args[0]
+            if [n for n, _ in fields] != [f.name for f in dataclasses.fields(cls)]:
+                return ["unknown-dataclass-fields", repr(t)]
+            return ["dc", len(fields), [v for _, v in fields]]
+        if t.func is _reconstruct_namedtuple:
+            inner = canon_task(t.args[1])
+            if inner[0] != "conv" or inner[1] != "tuple" or inner[2][0] != "list":
+                return ["unknown-namedtuple", repr(t)]
+            return ["nt", len(inner[2][1]), inner[2][1]]
+        return ["unknown-task", repr(t)]
+    if isinstance(t, GraphNode):
+        return ["unknown-node", repr(t)]
+    return ["obj", pv_of(t)]
+
+
+def _typed(x):
+    """value with exact types (the eager / computed argument)"""
+    if dataclasses.is_dataclass(x) and not isinstance(x, type):
+        return [type(x).__name__, [_typed(getattr(x, f.name)) for f in dataclasses.fields(x)]]
+    if isinstance(x, tuple) and hasattr(x, "_fields"):
+        return [type(x).__name__, [_typed(e) for e in x]]
+    if type(x) in (list, tuple):
+        return [type(x).__name__, [_typed(e) for e in x]]
+    if type(x) in (set, frozenset):
+        return [type(x).__name__, sorted((_typed(e) for e in x), key=repr)]
+    if type(x) is dict:
+        return ["dict", [[_typed(k), _typed(v)] for k, v in x.items()]]
+    if type(x) is slice:
+        return ["slice", _typed(x.start), _typed(x.stop), _typed(x.step)]
+    if hasattr(x, "__next__"):
+        return ["iterator", [_typed(e) for e in x]]
+    return [type(x).__name__, repr(x)]
+
+
+def _pv_kinds(spec, kinds, depth, inside):
+    t = spec[0]
+    if t == "del" and depth >= 2:
+        kinds.add("delayed-two-levels-deep")
+    if t in ("tuple", "set", "ituple", "iset") and depth >= 1 and _pv_has_del(spec):
+        kinds.add(f"{t.lstrip('i')}-with-delayed-inside-{inside}")
+    if t in ("list", "tuple", "set", "ilist", "ituple", "iset"):
+        for x in spec[1]:
+            _pv_kinds(x, kinds, depth + 1, t.lstrip("i"))
+        if t[0] == "i" and t != "iset" or t == "iset":
+            kinds.add("iterator")
+    elif t == "dict":
+        for k, v in spec[1]:
+            _pv_kinds(k, kinds, depth + 1, "dict-key")
+            _pv_kinds(v, kinds, depth + 1, "dict")
+    elif t == "slice":
+        kinds.add("slice")
+        for x in spec[1:4]:
+            _pv_kinds(x, kinds, depth + 1, "slice")
+    elif t in ("dc", "nt"):
+        kinds.add(t)
+        for x in spec[2]:
+            _pv_kinds(x, kinds, depth + 1, t)
+
+
+def _pv_has_del(spec):
+    t = spec[0]
+    if t == "del":
+        return True
+    if t == "lit":
+        return False
+    if t == "dict":
+        return any(_pv_has_del(k) or _pv_has_del(v) for k, v in spec[1])
+    if t == "slice":
+        return any(_pv_has_del(x) for x in spec[1:4])
+    return any(_pv_has_del(x) for x in (spec[2] if t in ("dc", "nt") else spec[1]))
+
+
+def case_unpackfn(ctx, inp):
+    """one delayed call `_capture(*args, **kwargs)`: (a) unpack_collections on every argument vs the model (task shape and
+    collections), (b) the task evaluated on the dependency values == the argument with the values in place (exact types),
+    (c) the task of the call in the real graph vs the model's callArgs, (d) compute == eager call."""
+    import dask
+    from dask import delayed
+    from dask.delayed import unpack_collections
+    keys = sorted({k for a in inp["args"] + [v for _, v in inp["kwargs"]] for k in _pv_dels(a)})
+    if inp.get("leafkind") == "call":
+        leaves = {k: delayed(_ident)(1000 + k, dask_key_name=f"k{k}") for k in keys}
+    else:
+        leaves = {k: delayed(1000 + k, name=f"k{k}") for k in keys}
+    env = {f"k{k}": 1000 + k for k in keys}
+    kinds = set()
+    for pos, spec in enumerate(inp["args"] + [v for _, v in inp["kwargs"]]):
+        obj = build_pv(spec, leaves, False)
+        is_iter = spec[0] in ("ilist", "ituple", "iset")
+        actual = pv_of(build_pv([spec[0][1:], spec[1]], leaves, False)) if is_iter and spec[0] != "iset" else None
+        if spec[0] == "iset":
+            base = build_pv(["set", spec[1]], leaves, False)
+            obj, actual = iter(base), pv_of(base)
+        if actual is None:
+            actual = pv_of(obj)
+        else:
+            actual = [spec[0], actual[1]]
+        task, colls = unpack_collections(obj)
+        m_task, m_colls = ctx.lean(Sym("dunpack"), enc_pv(actual))
+        ctx.eq("unpack_collections: task", dec_tt(m_task), canon_task(task))
+        if "set" in json.dumps(spec):
+            ctx.eq("unpack_collections: collections (as a multiset)", sorted(f"k{k}" for k in m_colls), sorted(c.key for c in colls))
+        else:
+            ctx.eq("unpack_collections: collections", [f"k{k}" for k in m_colls], [c.key for c in colls])
+        # the task on the dependency values
+        from dask._task_spec import GraphNode, TaskRef
+        want = _typed(build_pv(spec, leaves, True))
+        try:
+            got = task(env) if isinstance(task, GraphNode) else (env[task.key] if isinstance(task, TaskRef) else task)
+            got = _typed(got)
+        except Exception as e:
+            got = ["raised", type(e).__name__, str(e)[:100]]
+        if got != want:
+            ctx.fail("the task built for an argument does not evaluate to the argument with the values in place",
+                     observed=got, expected=want, inp={"args": [spec], "kwargs": [], "leafkind": inp.get("leafkind")})
+        _pv_kinds(spec, kinds, 0, "top" if pos < len(inp["args"]) else "kwargs")
+        if pos >= len(inp["args"]) and spec[0] in ("tuple", "set") and _pv_has_del(spec):
+            kinds.add(f"{spec[0]}-with-delayed-inside-kwargs")
+    # the call
+    args = [build_pv(a, leaves, False) for a in inp["args"]]
+    kwargs = {k: build_pv(v, leaves, False) for k, v in inp["kwargs"]}
+    eargs = [build_pv(a, leaves, True) for a in inp["args"]]
+    ekwargs = {k: build_pv(v, leaves, True) for k, v in inp["kwargs"]}
+    opts = {}
+    if inp.get("pure"):
+        opts["pure"] = True
+    try:
+        d = delayed(_capture, **opts)(*args, **kwargs)
+        got = d.compute(scheduler="sync")
+    except Exception as e:
+        ctx.fail(f"a delayed call with nested arguments raised {type(e).__name__}: {str(e)[:150]}", observed=type(e).__name__)
+        return
+    want = _capture(*eargs, **ekwargs)
+    if _typed(got) != _typed(want):
+        ctx.fail("delayed program computes a different value than the same program run eagerly (nested arguments)",
+                 observed=_typed(got), expected=_typed(want))
+    if not any(a[0] in ("ilist", "ituple", "iset") for a in inp["args"] + [v for _, v in inp["kwargs"]]):
+        t = dict(d.__dask_graph__())[d.key]
+        m_args, m_kw, m_colls = ctx.lean(Sym("dcall"), [enc_pv(pv_of(a)) for a in args], [[k, enc_pv(pv_of(v))] for k, v in kwargs.items()])
+        ctx.eq("task of the call: positional arguments", [dec_tt(x) for x in m_args], [canon_task(a) for a in t.args])
+        ctx.eq("task of the call: keyword arguments", sorted([str(k), dec_tt(v)] for k, v in m_kw),
+               sorted([k, canon_task(v)] for k, v in t.kwargs.items()))
+        ctx.eq("task of the call: dependencies", sorted({f"k{k}" for k in m_colls}), sorted(map(str, t.dependencies)))
+    for k in kinds:
+        ctx.branch("unpack-" + k)
+    if inp["kwargs"]:
+        ctx.branch("unpack-kwargs")
+
+
+def _pv_dels(spec):
+    t = spec[0]
+    if t == "del":
+        return [spec[1]]
+    if t == "lit":
+        return []
+    if t == "dict":
+        return [x for k, v in spec[1] for x in _pv_dels(k) + _pv_dels(v)]
+    if t == "slice":
+        return [x for y in spec[1:4] for x in _pv_dels(y)]
+    return [x for y in (spec[2] if t in ("dc", "nt") else spec[1]) for x in _pv_dels(y)]
+
+
+def gen_pv(rng, depth, hashable=False, maxdepth=4):
+    """random argument; `hashable`: usable as set element / dict key (after evaluation too)"""
+    r = rng.random()
+    if depth >= maxdepth or r < 0.3:
+        return ["del", rng.randint(1, 4)] if rng.random() < 0.55 else ["lit", rng.randint(0, 9)]
+    if hashable:
+        k = rng.randrange(4)
+        if k <= 1:
+            return ["tuple", [gen_pv(rng, depth + 1, True, maxdepth) for _ in range(rng.randint(0, 3))]]
+        if k == 2:
+            return ["nt", 0, [gen_pv(rng, depth + 1, True, maxdepth) for _ in range(rng.randint(1, 3))]]
+        return ["dc", 0, [gen_pv(rng, depth + 1, True, maxdepth) for _ in range(rng.randint(1, 2))]]
+    k = rng.randrange(11)
+    n = rng.randint(0, 3)
+    if k <= 1:
+        return ["list", [gen_pv(rng, depth + 1, False, maxdepth) for _ in range(n)]]
+    if k <= 3:
+        return ["tuple", [gen_pv(rng, depth + 1, False, maxdepth) for _ in range(n)]]
+    if k == 4:
+        return ["set", _distinct_pv([gen_pv(rng, depth + 1, True, maxdepth) for _ in range(n)])]
+    if k <= 6:
+        keys = _distinct_pv([gen_pv(rng, depth + 2, True, maxdepth) for _ in range(n)])
+        return ["dict", [[kk, gen_pv(rng, depth + 1, False, maxdepth)] for kk in keys]]
+    if k == 7:
+        return ["slice"] + [gen_pv(rng, maxdepth, False, maxdepth) for _ in range(3)]
+    if k == 8:
+        return ["dc", 0, [gen_pv(rng, depth + 1, False, maxdepth) for _ in range(rng.randint(1, 3))]]
+    if k == 9:
+        return ["nt", 0, [gen_pv(rng, depth + 1, False, maxdepth) for _ in range(rng.randint(1, 3))]]
+    kind = rng.choice(["ilist", "ituple", "iset"])
+    if kind == "iset":
+        return ["iset", _distinct_pv([gen_pv(rng, depth + 1, True, maxdepth) for _ in range(n)])]
+    return [kind, [gen_pv(rng, depth + 1, False, maxdepth) for _ in range(n)]]
+
+
+def _distinct_pv(specs):
+    """distinct as python values after evaluation: delayed k evaluates to 1000 + k, lits stay below 10"""
+    out = []
+    for s in specs:
+        if s not in out:
+            out.append(s)
+    return out
+
+
+def _fix_iters(spec, top=True):
+    """iterators are consumed once: only at the top of an argument (nested ones would be exhausted by the harness)"""
+    t = spec[0]
+    if t in ("lit", "del"):
+        return spec
+    if t in ("ilist", "ituple", "iset") and not top:
+        t = t[1:]
+    if t == "dict":
+        return ["dict", [[_fix_iters(k, False), _fix_iters(v, False)] for k, v in spec[1]]]
+    if t == "slice":
+        return ["slice"] + [_fix_iters(x, False) for x in spec[1:4]]
+    if t in ("dc", "nt"):
+        return [t, spec[1], [_fix_iters(x, False) for x in spec[2]]]
+    return [t, [_fix_iters(x, False) for x in spec[1]]]
+
+
 CASES = {"sym": case_sym, "purekey": case_purekey, "surface": case_surface, "nout": case_nout, "keys": case_keys,
-         "collarg": case_collarg}
+         "collarg": case_collarg, "unpackfn": case_unpackfn, "nout2": case_nout2}
 
 
 # ----------------------------------------------------------------------------------------------
@@ -652,6 +1095,17 @@ EXPLICIT_SYM = [
 ]
 
 
+EXPLICIT_UNPACK = [
+    # tuples / sets holding Delayed values INSIDE another container or passed by keyword keep their type
+    {"args": [["list", [["tuple", [["del", 1], ["lit", 10]]]]]], "kwargs": [["shape", ["tuple", [["del", 1], ["del", 2]]]]], "leafkind": "leaf"},
+    {"args": [["dict", [[["lit", 7], ["tuple", [["del", 1], ["del", 2]]]]]], ["list", [["set", [["del", 1], ["del", 2]]]]]],
+     "kwargs": [["cfg", ["dict", [[["lit", 1], ["set", [["del", 3], ["lit", 4]]]]]]]], "leafkind": "leaf"},
+    {"args": [["dc", 0, [["tuple", [["del", 1]]], ["lit", 2]]], ["nt", 0, [["tuple", [["del", 2], ["lit", 3]]], ["set", [["del", 1]]]]]],
+     "kwargs": [], "leafkind": "call"},
+    {"args": [["tuple", [["tuple", [["tuple", [["del", 1]]]]]]], ["slice", ["del", 1], ["lit", 0], ["del", 2]]], "kwargs": [], "leafkind": "leaf"},
+]
+
+
 def generate(ctx):
     rng = ctx.rng
     for p in EXPLICIT_SYM:
@@ -677,11 +1131,23 @@ def generate(ctx):
                 call["kwargs"] = [[k, ["val", U.gen_scalar(rng)]] for k in rng.sample(["y", "a", "zz"], rng.randint(1, 2))]
             calls.append(call)
         yield "purekey", {"f": rng.randrange(len(U.FUNCS)), "calls": calls}
+    for e in EXPLICIT_UNPACK:
+        yield "unpackfn", dict(e)
+    for _ in range(ctx.n(300, 4000)):
+        args = [_fix_iters(gen_pv(rng, 0)) for _ in range(rng.randint(0, 3))]
+        kwargs = [[k, _fix_iters(gen_pv(rng, 0))] for k in rng.sample(["shape", "cfg", "x", "key"], rng.choice([0, 0, 1, 2]))]
+        yield "unpackfn", {"args": args, "kwargs": kwargs, "pure": rng.random() < 0.3,
+                           "leafkind": rng.choice(["leaf", "leaf", "call"])}
     for i in range(ctx.n(110, 1500)):
         yield "surface", {"idx": i, "a": rng.randint(1, 4), "b": rng.randint(1, 5), "lst": [rng.randint(0, 9) for _ in range(4)],
                           "scheduler": rng.choice(["sync", "threads"])}
     for _ in range(ctx.n(10, 50)):
         yield "nout", {"n": rng.randint(0, 5), "m": rng.randint(0, 5), "pure": rng.random() < 0.5}
+    for _ in range(ctx.n(60, 600)):
+        k = rng.randint(0, 4)
+        yield "nout2", {"n": rng.randint(0, 5), "m": rng.randint(0, 5), "k": k, "nout": rng.randint(0, k) if rng.random() < 0.9 else k + 1,
+                        "kind": rng.choice(list(_RETS)), "how": rng.choice(["call", "call", "nested-arg", "named"]),
+                        "pure": rng.choice([None, True, False])}
     for i in range(ctx.n(6, 30)):
         yield "keys", {"n": rng.randint(0, 9)}
     for i in range(ctx.n(15, 100)):
